@@ -14,6 +14,8 @@
 //   sm     '-' (gm2calc::SM defaults) | comma separated key=hexfloat overrides of the SM input:
 //          mw mz aem (alpha_em(MZ)) ae0 (alpha_em(0)) as (alpha_s(MZ)) mu0 mu1 mu2 md0 md1 md2 ml0 ml1 ml2
 //   matrices: '0' or nine comma separated hex floats (row major)
+//   'accessors' prints the get_* accessors (name/arity) this harness reads; block X reads every public accessor
+//   through its other overloads (array / matrix getters, element getters, derived getters); block P parses print().
 //   ops    <blocks>[@tb1[,tb2..]]: after construction model.set_tan_beta(tb1), set_tan_beta(tb2), .. are applied
 //          (the object state is part of the alphabet), then the blocks are printed; blocks = subset of S (spectrum/getters), A (a_mu), T (individual terms of a_mu,
 //          used only as the scale "sum of |terms|" of tolerances), Y (12 Yukawa getters)
@@ -35,6 +37,7 @@
 #include <complex>
 #include <cstdio>
 #include <cstdlib>
+#include <cstring>
 #include <iostream>
 #include <sstream>
 #include <string>
@@ -299,6 +302,132 @@ void block_Y(std::string& o, const THDM& m)
    out(o, m.get_ylh()); out(o, m.get_ylH()); out(o, m.get_ylA()); out(o, m.get_ylHp());
 }
 
+// ---- X: every public accessor through all of its overloads ---------------------------------
+// (the S block reads the indexed / scalar getters; here: array and matrix getters, element getters,
+//  derived getters); block P parses print().  Keep ACCESSORS below in sync: the driver compares it with the
+//  get_* declarations of the public headers and refuses to run when one is not read.
+const char* const ACCESSORS[] = {
+   // THDM
+   "get_zeta_u/0", "get_zeta_d/0", "get_zeta_l/0", "get_sm/0",
+   "get_yuh/0", "get_yuH/0", "get_yuA/0", "get_yuHp/0", "get_ydh/0", "get_ydH/0", "get_ydA/0", "get_ydHp/0",
+   "get_ylh/0", "get_ylH/0", "get_ylA/0", "get_ylHp/0",
+   // THDM_mass_eigenstates
+   "get_problems/0", "get_MVG/0", "get_MVP/0", "get_MVWm/0", "get_MVZ/0",
+   "get_Mhh/0", "get_Mhh/1", "get_MAh/0", "get_MAh/1", "get_MHm/0", "get_MHm/1",
+   "get_MFu/0", "get_MFu/1", "get_MFd/0", "get_MFd/1", "get_MFv/0", "get_MFv/1", "get_MFe/0", "get_MFe/1",
+   "get_ZH/0", "get_ZH/2", "get_ZA/0", "get_ZA/2", "get_ZP/0", "get_ZP/2",
+   "get_Vd/0", "get_Vd/2", "get_Ud/0", "get_Ud/2", "get_Vu/0", "get_Vu/2", "get_Uu/0", "get_Uu/2",
+   "get_Ve/0", "get_Ve/2", "get_Ue/0", "get_Ue/2",
+   "get_ewsb_eq_hh_1/0", "get_ewsb_eq_hh_2/0",
+   "get_sin_beta/0", "get_cos_beta/0", "get_tan_beta/0", "get_beta/0", "get_alpha_h/0",
+   "get_sin_beta_minus_alpha/0", "get_cos_beta_minus_alpha/0", "get_alpha_em/0", "get_eta/0",
+   "get_LambdaFive/0", "get_LambdaSixSeven/0", "get_v/0", "get_v_sqr/0",
+   // THDM_parameters
+   "get_m122/0", "get_m112/0", "get_m222/0", "get_v1/0", "get_v2/0", "get_g1/0", "get_g2/0", "get_g3/0",
+   "get_lambda1/0", "get_lambda2/0", "get_lambda3/0", "get_lambda4/0", "get_lambda5/0", "get_lambda6/0", "get_lambda7/0",
+   "get_Gamma_u/0", "get_Gamma_u/2", "get_Pi_u/0", "get_Pi_u/2", "get_Gamma_d/0", "get_Gamma_d/2",
+   "get_Gamma_l/0", "get_Gamma_l/2", "get_Pi_d/0", "get_Pi_d/2", "get_Pi_l/0", "get_Pi_l/2",
+};
+
+bool same_bits(double a, double b) { return std::memcmp(&a, &b, sizeof a) == 0; }
+
+template <class M, class F>
+double mismatches_r(const M& m, F elem, int n)
+{
+   int bad = 0;
+   for (int i = 0; i < n; ++i) { for (int k = 0; k < n; ++k) { if (!same_bits(m(i, k), elem(i, k))) { ++bad; } } }
+   return bad;
+}
+
+template <class M, class F>
+double mismatches_c(const M& m, F elem, int n)
+{
+   int bad = 0;
+   for (int i = 0; i < n; ++i) {
+      for (int k = 0; k < n; ++k) {
+         const std::complex<double> e = elem(i, k);
+         if (!same_bits(m(i, k).real(), e.real()) || !same_bits(m(i, k).imag(), e.imag())) { ++bad; }
+      }
+   }
+   return bad;
+}
+
+/// n numbers that follow `label` in the printed text (NaN when the label is missing)
+int grab(const std::string& text, const std::string& label, int n, std::string& o)
+{
+   const auto p = text.find(label);
+   int missing = 0;
+   const char* q = p == std::string::npos ? nullptr : text.c_str() + p + label.size();
+   for (int i = 0; i < n; ++i) {
+      double v = std::nan("");
+      if (q) {
+         while (*q == ' ' || *q == ',' || *q == '{') { ++q; }
+         char* end = nullptr;
+         v = std::strtod(q, &end);
+         if (end == q) { q = nullptr; v = std::nan(""); ++missing; } else { q = end; }
+      } else {
+         ++missing;
+      }
+      out(o, v);
+   }
+   return missing;
+}
+
+void block_X(std::string& o, const THDM& m)
+{
+   const THDM_mass_eigenstates& e = (const THDM_mass_eigenstates&)m;   // private base: a C-style cast may convert to it
+   o += " X 48";
+   for (int i = 0; i < 2; ++i) { out(o, e.get_Mhh()(i)); }     // 0,1   array getters
+   for (int i = 0; i < 2; ++i) { out(o, e.get_MAh()(i)); }     // 2,3
+   for (int i = 0; i < 2; ++i) { out(o, e.get_MHm()(i)); }     // 4,5
+   for (int i = 0; i < 3; ++i) { out(o, e.get_MFu()(i)); }     // 6..8
+   for (int i = 0; i < 3; ++i) { out(o, e.get_MFd()(i)); }     // 9..11
+   for (int i = 0; i < 3; ++i) { out(o, e.get_MFe()(i)); }     // 12..14
+   for (int i = 0; i < 3; ++i) { out(o, e.get_MFv()(i)); }     // 15..17
+   out(o, e.get_v_sqr()); out(o, e.get_sin_beta()); out(o, e.get_cos_beta()); out(o, e.get_eta());   // 18..21
+   out(o, e.get_LambdaFive()); out(o, e.get_LambdaSixSeven());                                        // 22,23
+   out(o, e.get_v1()); out(o, e.get_v2()); out(o, e.get_g1()); out(o, e.get_g2()); out(o, e.get_g3()); // 24..28
+   out(o, e.get_m112()); out(o, e.get_m222()); out(o, e.get_ewsb_eq_hh_1()); out(o, e.get_ewsb_eq_hh_2()); // 29..32
+   // matrix getter against element getter, bitwise (number of differing elements)      33..47
+   out(o, mismatches_r(e.get_ZH(), [&](int i, int k) { return e.get_ZH(i, k); }, 2));
+   out(o, mismatches_r(e.get_ZA(), [&](int i, int k) { return e.get_ZA(i, k); }, 2));
+   out(o, mismatches_r(e.get_ZP(), [&](int i, int k) { return e.get_ZP(i, k); }, 2));
+   out(o, mismatches_c(e.get_Vd(), [&](int i, int k) { return e.get_Vd(i, k); }, 3));
+   out(o, mismatches_c(e.get_Ud(), [&](int i, int k) { return e.get_Ud(i, k); }, 3));
+   out(o, mismatches_c(e.get_Vu(), [&](int i, int k) { return e.get_Vu(i, k); }, 3));
+   out(o, mismatches_c(e.get_Uu(), [&](int i, int k) { return e.get_Uu(i, k); }, 3));
+   out(o, mismatches_c(e.get_Ve(), [&](int i, int k) { return e.get_Ve(i, k); }, 3));
+   out(o, mismatches_c(e.get_Ue(), [&](int i, int k) { return e.get_Ue(i, k); }, 3));
+   out(o, mismatches_c(e.get_Gamma_u(), [&](int i, int k) { return e.get_Gamma_u(i, k); }, 3));
+   out(o, mismatches_c(e.get_Gamma_d(), [&](int i, int k) { return e.get_Gamma_d(i, k); }, 3));
+   out(o, mismatches_c(e.get_Gamma_l(), [&](int i, int k) { return e.get_Gamma_l(i, k); }, 3));
+   out(o, mismatches_c(e.get_Pi_u(), [&](int i, int k) { return e.get_Pi_u(i, k); }, 3));
+   out(o, mismatches_c(e.get_Pi_d(), [&](int i, int k) { return e.get_Pi_d(i, k); }, 3));
+   out(o, mismatches_c(e.get_Pi_l(), [&](int i, int k) { return e.get_Pi_l(i, k); }, 3));
+}
+
+// ---- P: print(): the numbers as printed (expensive: requested for a subset of the cases) ---------
+void block_P(std::string& o, const THDM& m)
+{
+   o += " P 46";                                      // 0..44 values, 45 = labels not found
+   std::ostringstream os;
+   m.print(os);
+   const std::string t = os.str();
+   int miss = 0;
+   miss += grab(t, "\nMhh = ", 2, o); miss += grab(t, "\nMAh = ", 2, o); miss += grab(t, "\nMHm = ", 2, o);
+   miss += grab(t, "\nMFu = ", 3, o); miss += grab(t, "\nMFd = ", 3, o); miss += grab(t, "\nMFv = ", 3, o); miss += grab(t, "\nMFe = ", 3, o);
+   miss += grab(t, "\nMVWm = ", 1, o); miss += grab(t, "\nMVZ = ", 1, o); miss += grab(t, "\nv = ", 1, o);
+   miss += grab(t, "\nalpha_h = ", 1, o); miss += grab(t, "\nbeta = ", 1, o);
+   miss += grab(t, "\nsin(beta - alpha_h) = ", 1, o); miss += grab(t, "\ncos(beta - alpha_h) = ", 1, o);
+   miss += grab(t, "\neta = ", 1, o); miss += grab(t, "\ntan(beta) = ", 1, o);
+   miss += grab(t, "\nzeta_u = ", 1, o); miss += grab(t, "\nzeta_d = ", 1, o); miss += grab(t, "\nzeta_l = ", 1, o);
+   for (int i = 1; i <= 7; ++i) { miss += grab(t, "\nlambda" + std::to_string(i) + " = ", 1, o); }
+   miss += grab(t, "\nm122 = ", 1, o); miss += grab(t, "\nm112 = ", 1, o); miss += grab(t, "\nm222 = ", 1, o);
+   miss += grab(t, "\nv1 = ", 1, o); miss += grab(t, "\nv2 = ", 1, o);
+   miss += grab(t, "\ng1 = ", 1, o); miss += grab(t, "\ng2 = ", 1, o); miss += grab(t, "\ng3 = ", 1, o);
+   out(o, miss);
+}
+
 void evaluate(const Case& c, std::string& o)
 {
    SM sm = make_sm(c.ckm, c.smspec);
@@ -317,6 +446,8 @@ void evaluate(const Case& c, std::string& o)
       case 'A': block_A(o, m); break;
       case 'T': block_T(o, m); break;
       case 'Y': block_Y(o, m); break;
+      case 'X': block_X(o, m); break;
+      case 'P': block_P(o, m); break;
       default: throw Bad{std::string("unknown op ") + op};
       }
    }
@@ -333,7 +464,11 @@ int main()
    std::string o;
    while (std::getline(std::cin, line)) {
       if (line.empty()) { continue; }
-      if (line == "hello") { std::cout << "THDM-HARNESS 5 S96 A4 T17 Y216\n"; continue; }
+      if (line == "accessors") {
+         for (const char* a : ACCESSORS) { std::cout << "ACC " << a << '\n'; }
+         continue;
+      }
+      if (line == "hello") { std::cout << "THDM-HARNESS 7 S96 A4 T17 Y216 X48 P46\n"; continue; }
       std::vector<std::string> tk;
       {
          std::stringstream ss(line);
